@@ -347,26 +347,7 @@ fn c13_core(ctx: &mut Ctx) {
         let scope = if op == "reduce" { json!({"current": rand_value(&mut ctx.rng, 1), "accumulator": rand_value(&mut ctx.rng, 1)}) } else { rand_value(&mut ctx.rng, 2) };
         let mut e = g.rule(&mut ctx.rng, &scope, 2, 3);
         if ctx.rng.chance(1, 4) {
-            // the everyday shape: a binary operator over the scope variables, in every spelling of
-            // the reference (bare, bracketed, with a default that is a constant / logs / fails)
-            let op2 = *ctx.rng.pick(&["+", "-", "*", "cat", "merge", "max", "min", "and", "or", "==", "<", "===", "in"]);
-            let mut refer = |ctx: &mut Ctx, g: &mut RuleGen, key: &str| -> Value {
-                match ctx.rng.below(6) {
-                    0 | 1 => json!({ "var": key }),
-                    2 => json!({ "var": [key] }),
-                    3 => json!({"var": [key, rand_scalar(&mut ctx.rng)]}),
-                    4 => json!({"var": [key, g.uprobe()]}),
-                    _ => json!({"var": [key, {"/": [1]}]}),
-                }
-            };
-            e = if op == "reduce" {
-                let (a, b) = (refer(ctx, &mut g, "current"), refer(ctx, &mut g, "accumulator"));
-                if ctx.rng.chance(1, 2) { json!({ op2: [a, b] }) } else { json!({ op2: [b, a] }) }
-            } else {
-                let a = refer(ctx, &mut g, "");
-                let c = rand_scalar(&mut ctx.rng);
-                if ctx.rng.chance(1, 2) { json!({ op2: [a, c] }) } else { json!({ op2: [c, a] }) }
-            };
+            e = everyday_step(ctx, &mut g, op);
         }
         let rule = if op == "reduce" { json!({ op: [coll, e, g.rule(&mut ctx.rng, &d, 1, 2)] }) } else { json!({ op: [coll, e] }) };
         let out = c13_case(ctx, &rule, &d, true);
@@ -380,6 +361,29 @@ fn c13_core(ctx: &mut Ctx) {
         if i % 400 == 0 {
             ctx.sample(json!({"rule": rule, "data": d}));
         }
+    }
+}
+
+/// The everyday shape of an element / step expression: a binary operator over the scope variables,
+/// in every spelling of the reference (bare, bracketed, with a default that is a constant / logs / fails).
+fn everyday_step(ctx: &mut Ctx, g: &mut RuleGen, op: &str) -> Value {
+    let op2 = *ctx.rng.pick(&["+", "-", "*", "cat", "merge", "max", "min", "and", "or", "==", "<", "===", "in"]);
+    let refer = |ctx: &mut Ctx, g: &mut RuleGen, key: &str| -> Value {
+        match ctx.rng.below(6) {
+            0 | 1 => json!({ "var": key }),
+            2 => json!({ "var": [key] }),
+            3 => json!({"var": [key, rand_scalar(&mut ctx.rng)]}),
+            4 => json!({"var": [key, g.uprobe()]}),
+            _ => json!({"var": [key, {"/": [1]}]}),
+        }
+    };
+    if op == "reduce" {
+        let (a, b) = (refer(ctx, g, "current"), refer(ctx, g, "accumulator"));
+        if ctx.rng.chance(1, 2) { json!({ op2: [a, b] }) } else { json!({ op2: [b, a] }) }
+    } else {
+        let a = refer(ctx, g, "");
+        let c = rand_scalar(&mut ctx.rng);
+        if ctx.rng.chance(1, 2) { json!({ op2: [a, c] }) } else { json!({ op2: [c, a] }) }
     }
 }
 
@@ -418,15 +422,16 @@ fn c13_null_is_empty(ctx: &mut Ctx, op: &str, e: &Value, init: Option<&Value>, d
 /// implementation's own `apply` (collection first, then the element expression once per element with
 /// the element / the {current, accumulator} pair as its data). Independent of `refsem`.
 fn c13_self_laws(ctx: &mut Ctx, op: &str, rule: &Value, d: &Value, out: &Outcome) {
+    stepwise_law(ctx, "c13", op, rule, d, out)
+}
+
+fn stepwise_law(ctx: &mut Ctx, prefix: &str, op: &str, rule: &Value, d: &Value, out: &Outcome) {
     let args = match rule.get(op) {
         Some(Value::Array(a)) => a.clone(),
         _ => return,
     };
-    let mon = match op {
-        "map" => "c13.map-stepwise",
-        "filter" => "c13.filter-stepwise",
-        _ => "c13.reduce-stepwise",
-    };
+    let mon_s = format!("{}.{}-stepwise", prefix, if op == "map" || op == "filter" { op } else { "reduce" });
+    let mon = mon_s.as_str();
     ctx.mon(mon).observed += 1;
     // operand counts are checked when the rule is read, before anything is evaluated: a rule with a
     // malformed operation anywhere is an error as a whole, which stepping through it cannot see
@@ -864,6 +869,24 @@ fn c04_core(ctx: &mut Ctx) {
                     c04_substitution(ctx, op, &operands, &data);
                 }
             }
+        }
+        // "the result equals that of the single-pass reference semantics": a fold over marker-laden
+        // data must equal the same fold done step by step through `apply` (value, error-ness, lines)
+        if i % 5 == 0 {
+            let op = *ctx.rng.pick(&["map", "filter", "reduce"]);
+            let e = everyday_step(ctx, &mut g, op);
+            let coll = match ctx.rng.below(3) {
+                0 => json!({"var": "items"}),
+                1 => Value::Array((0..ctx.rng.below(4)).map(|_| rand_value(&mut ctx.rng, 1)).collect()),
+                _ => g.rule(&mut ctx.rng, &data, 1, 2),
+            };
+            let mut d2 = data.clone();
+            if let Value::Object(m) = &mut d2 {
+                m.insert("items".into(), Value::Array((0..ctx.rng.below(5)).map(|k| if k % 2 == 0 { markers[k % markers.len()].clone() } else { rand_scalar(&mut ctx.rng) }).collect()));
+            }
+            let fold = if op == "reduce" { json!({ op: [coll, e, rand_scalar(&mut ctx.rng)] }) } else { json!({ op: [coll, e] }) };
+            let out = ctx.observe(&fold, &d2).out;
+            stepwise_law(ctx, "c04", op, &fold, &d2, &out);
         }
         if i % 600 == 0 {
             ctx.sample(json!({"rule": rule, "data": data}));
